@@ -35,13 +35,13 @@ func TestHTTPErrorClasses(t *testing.T) {
 	defer st.Flush()
 	rapid.Check(t, func(t *rapid.T) {
 		type scen struct {
-			Class      string `json:"class"` // unsupported-scheme | redirect-loop | unknown-authority | refused | reset
+			Class      string `json:"class"` // unsupported-scheme | redirect-loop | unknown-authority | refused | reset | client-timeout
 			Via        string `json:"via"`
 			MaxRetries int    `json:"max_retries"`
 			Method     string `json:"method"`
 			BodySize   int    `json:"body_size"`
 		}
-		sc := scen{Class: rapid.SampledFrom([]string{"unsupported-scheme", "redirect-loop", "unknown-authority", "refused", "reset"}).Draw(t, "class"),
+		sc := scen{Class: rapid.SampledFrom([]string{"unsupported-scheme", "redirect-loop", "unknown-authority", "refused", "reset", "client-timeout"}).Draw(t, "class"),
 			Via: rapid.SampledFrom([]string{"roundtripper", "request"}).Draw(t, "via"), MaxRetries: rapid.IntRange(0, 3).Draw(t, "maxRetries"),
 			Method: rapid.SampledFrom([]string{"GET", "POST", "PUT"}).Draw(t, "method"), BodySize: rapid.SampledFrom([]int{0, 10, 3000}).Draw(t, "bodySize")}
 		var served atomic.Int32
@@ -51,6 +51,7 @@ func TestHTTPErrorClasses(t *testing.T) {
 		defer tr.CloseIdleConnections()
 		terminal := false
 		perAttempt := int32(1) // requests the server sees per attempt
+		clientTimeout := time.Duration(0)
 		switch sc.Class {
 		case "unsupported-scheme":
 			url, terminal = "ftp://127.0.0.1:1/x", true
@@ -83,6 +84,21 @@ func TestHTTPErrorClasses(t *testing.T) {
 			}
 			sa, _ := syscall.Getsockname(fd)
 			url = fmt.Sprintf("http://127.0.0.1:%d/x", sa.(*syscall.SockaddrInet4).Port)
+		case "client-timeout":
+			// the caller's http.Client gives up on every attempt after its own Timeout (10 ms) while the caller's context
+			// stays alive: an ordinary transient error, retried like the others ("retry on all other url errors"). Only through
+			// failsafehttp.Request does the client's timeout apply to one attempt.
+			sc.Via = "request"
+			srv := httptest.NewServer(http.HandlerFunc(func(w http.ResponseWriter, r *http.Request) {
+				served.Add(1)
+				select {
+				case <-r.Context().Done():
+				case <-time.After(2 * time.Second):
+				}
+			}))
+			defer srv.Close()
+			url = srv.URL
+			clientTimeout = 10 * time.Millisecond
 		case "reset":
 			srv := httptest.NewServer(http.HandlerFunc(func(w http.ResponseWriter, r *http.Request) {
 				served.Add(1)
@@ -111,7 +127,7 @@ func TestHTTPErrorClasses(t *testing.T) {
 		go func() {
 			defer close(done)
 			if sc.Via == "request" {
-				resp, err = failsafehttp.NewRequest(newReq(), &http.Client{Transport: tr}, rp).Do()
+				resp, err = failsafehttp.NewRequest(newReq(), &http.Client{Transport: tr, Timeout: clientTimeout}, rp).Do()
 			} else {
 				resp, err = (&http.Client{Transport: failsafehttp.NewRoundTripper(tr, rp)}).Do(newReq())
 			}
